@@ -2,7 +2,7 @@
 """Regenerates /verif/MANIFEST.json from the table below (kept in one place so it stays valid)."""
 import json, os, sys
 ROOT = os.path.dirname(os.path.dirname(os.path.abspath(__file__)))
-HOOK_COMMITS = ["7678754"]
+HOOK_COMMITS = ["7678754", "c790ccf"]
 
 TRUSTED = ("Trusted base: Unicode tables of the unicode-normalization crate and std, the regex / fancy-regex / aho-corasick / "
            "yada / csv / nom crates, rustc; bounds as reported in the evidence file.")
